@@ -909,6 +909,104 @@ pub fn c14(tier: &str, acc: &mut Acc, bounds: &mut Vec<String>) {
         acc.merge(asq);
         bounds.push("all orders of 6 whole searches over two automata on one thread (expected results from fresh threads) x both variants x 3 kinds".into());
     }
+    // --- relocation histories: an automaton that takes over the memory of another one (in-place
+    //     replacement, mem::swap of an active and a standby automaton) must search as if it had always
+    //     been there. One slot, every ordered pair (A, B) of automata of a small universe, every
+    //     (h1, h2): search A in the slot over h1, swap B into the slot, search B over h2, against the
+    //     brute-force oracle. Single thread on purpose (state kept outside the automaton would be
+    //     disturbed, hence masked, by concurrent searches). -------------------------------------------
+    {
+        let mut ar = Acc::new();
+        let letters: Vec<&str> = if thorough { vec!["\u{4e16}", "\u{754c}", "a"] } else { vec!["\u{4e16}", "\u{754c}"] };
+        let hletters: [&str; 3] = ["\u{4e16}", "\u{754c}", "a"];
+        let words = |ls: &[&str], n: usize| -> Vec<Vec<u8>> {
+            let mut out: Vec<Vec<u8>> = Vec::new();
+            let mut layer: Vec<String> = vec![String::new()];
+            for _ in 0..n {
+                let mut next = Vec::new();
+                for w in &layer {
+                    for l in ls {
+                        next.push(format!("{w}{l}"));
+                    }
+                }
+                out.extend(next.iter().map(|w| w.as_bytes().to_vec()));
+                layer = next;
+            }
+            out
+        };
+        let uni = words(&letters, 2);
+        let mut sets: Vec<Vec<Vec<u8>>> = Vec::new();
+        for i in 0..uni.len() {
+            sets.push(vec![uni[i].clone()]);
+            for j in i + 1..uni.len() {
+                sets.push(vec![uni[i].clone(), uni[j].clone()]);
+            }
+        }
+        let h1s = words(&hletters, 2);
+        let h2s = words(&hletters, 3);
+        'outer: for variant in Variant::ALL {
+            for kind in Kind::ALL {
+                let cfg = Cfg::new(variant, kind, None, Entry::Builder);
+                let ms = Method::for_kind(kind);
+                set_case(prop, "merges", e2::case_json(&cfg, &sets[0], None));
+                let mut pool: Vec<Auto> = Vec::new();
+                for ps in &sets {
+                    match e2::build_or_violate(prop, "merges", cfg, ps, None, &mut ar) {
+                        Some(b) => pool.push(b.auto),
+                        None => continue 'outer,
+                    }
+                }
+                let Some(ph) = e2::build_or_violate(prop, "merges", cfg, &[b"a".to_vec()], None, &mut ar) else { continue };
+                let mut slot: Auto = ph.auto;
+                // oracle answers
+                let expect = |si: usize, m: Method, h: &[u8]| -> Vec<M> {
+                    let occ = crate::oracle::occurrences(&sets[si], h);
+                    e2::expected_occ(m, kind, &occ).into_iter().map(|(s, e, i)| (s, e, i as u64)).collect()
+                };
+                let exp2: Vec<Vec<Vec<Vec<M>>>> = (0..sets.len()).map(|si| h2s.iter().map(|h| ms.iter().map(|&m| expect(si, m, h)).collect()).collect()).collect();
+                let exp1: Vec<Vec<Vec<M>>> = (0..sets.len()).map(|si| h1s.iter().map(|h| expect(si, ms[0], h)).collect()).collect();
+                for a in 0..sets.len() {
+                    std::mem::swap(&mut slot, &mut pool[a]); // slot = A
+                    for b in 0..sets.len() {
+                        if a == b {
+                            continue;
+                        }
+                        ar.evals += 1;
+                        ar.nontrivial += 1;
+                        for (i1, h1) in h1s.iter().enumerate() {
+                            for (i2, h2) in h2s.iter().enumerate() {
+                                for (mi, &m) in ms.iter().enumerate() {
+                                    let g1 = slot.run(ms[0], h1);
+                                    std::mem::swap(&mut slot, &mut pool[b]); // slot = B, pool[b] = A
+                                    let g2 = slot.run(m, h2);
+                                    std::mem::swap(&mut slot, &mut pool[b]); // back
+                                    ar.traces += 2;
+                                    let bad1 = g1 != exp1[a][i1];
+                                    if bad1 || g2 != exp2[b][i2][mi] {
+                                        let (si, hh, got, want, mm) = if bad1 { (a, h1, &g1, &exp1[a][i1], ms[0]) } else { (b, h2, &g2, &exp2[b][i2][mi], m) };
+                                        let mut c = e2::case_json(&cfg, &sets[si], None);
+                                        let o = c.as_object_mut().unwrap();
+                                        o.insert("check".into(), json!("threads"));
+                                        o.insert("history".into(), json!([
+                                            format!("slot holds the automaton of {:?}; {} over {:?}", sets[a].iter().map(|p| String::from_utf8_lossy(p).to_string()).collect::<Vec<_>>(), ms[0].name(), String::from_utf8_lossy(h1)),
+                                            format!("mem::swap puts the automaton of {:?} into the slot; {} over {:?}", sets[b].iter().map(|p| String::from_utf8_lossy(p).to_string()).collect::<Vec<_>>(), m.name(), String::from_utf8_lossy(h2)),
+                                        ]));
+                                        ar.violate(prop, "merges", format!("the result of a search depends on what lived at the automaton's address before: {} on {} [{}] patterns={:?} haystack={:?} returned {:?}, expected {:?} (history in the replay file)", mm.name(), variant.name(), kind.name(), sets[si].iter().map(|p| String::from_utf8_lossy(p).to_string()).collect::<Vec<_>>(), String::from_utf8_lossy(hh), got, want), c);
+                                        std::mem::swap(&mut slot, &mut pool[a]);
+                                        continue 'outer;
+                                    }
+                                }
+                            }
+                        }
+                    }
+                    std::mem::swap(&mut slot, &mut pool[a]); // A back to the pool
+                }
+            }
+        }
+        ar.count("relocation_pairs", ar.evals);
+        acc.merge(ar);
+        bounds.push(format!("relocation histories: every ordered pair of automata over all sets of 1-2 patterns of length <= 2 over {} letters x every (h1 of length <= 2, h2 of length <= 3 over 3 letters) x every method: search A in a slot, swap B into the same memory, search B - against brute force; both variants x 3 kinds, one thread", letters.len()));
+    }
     // --- searching does not write to the automaton: byte snapshot of the object itself ---------
     let mut asn = Acc::new();
     for (pi, ps) in pat_sets.iter().enumerate() {
